@@ -492,6 +492,110 @@ def scrape_gate():
     return e, re.sub(r'\s+', ' ', m.group(0))[:300]
 
 
+# ---------------------------------------------------------------- the binary layout of an event (event.rs)
+
+def event_layout(rep):
+    src = open(os.path.join(REPO, 'pocket-types/src/event.rs')).read()
+    L = ['import Pocket.Model.Basic'] + list(HEAD)
+    # ---- the writer: Event::from_parts, a sequence of output[a..b].copy_from_slice(x) / output[i] = 0 statements
+    try:
+        _, body = fn_text(src, 'from_parts')
+        i = body.index('output[0..4]')
+        j = body.index('Ok(Self::from_inner(&output[..length]))')
+        stm = re.sub(r'\s+', ' ', body[i:j]).strip()
+        parts = [x.strip() for x in stm.split(';') if x.strip()]
+        vals = {'(length as u32).to_ne_bytes().as_slice()': ('le32 (eventSize tagBytes.length content.length)', 4),
+                'kind.as_ref().to_ne_bytes().as_slice()': ('le16 kind', 2),
+                'created_at.as_ref().to_ne_bytes().as_slice()': ('le64 t', 8),
+                'id.as_slice()': ('id', 32), 'pubkey.as_slice()': ('pk', 32), 'sig.as_slice()': ('sig', 64),
+                'tags.as_bytes()': ('tagBytes', 'taglen'), '(contentlen as u32).to_ne_bytes().as_slice()': ('le32 content.length', 4),
+                'content': ('content', 'contentlen')}
+        terms = [0]          # the write position, symbolically: 144 + taglen + 4 …
+        pieces = []
+
+        def norm(e):
+            return re.sub(r'\s+', '', e)
+
+        def text(ts):
+            return '+'.join(str(x) for x in ts)
+
+        def plus(ts, w):
+            ts = list(ts)
+            if isinstance(w, int) and isinstance(ts[-1], int):
+                ts[-1] += w
+            else:
+                ts.append(w)
+            return ts
+        for st in parts:
+            m = re.fullmatch(r'output\[(.+?)\.\.(.+?)\] ?\.copy_from_slice\((.+)\)', st)
+            if m:
+                a, b, x = norm(m.group(1)), norm(m.group(2)), m.group(3).strip()
+                if x not in vals:
+                    raise Untranslatable('from_parts: value %r' % x)
+                lean, w = vals[x]
+                if a != text(terms):
+                    raise Untranslatable('from_parts: the writes are not contiguous: %s after %s' % (a, text(terms)))
+                terms = plus(terms, w)
+                if norm(b) != text(terms):
+                    raise Untranslatable('from_parts: %s..%s is not %s wide' % (a, b, w))
+                pieces.append(lean)
+                continue
+            m = re.fullmatch(r'output\[(\d+)\] = 0', st)
+            if m:
+                if m.group(1) != text(terms):
+                    raise Untranslatable('from_parts: the writes are not contiguous at %s' % m.group(1))
+                pieces.append('[0]')
+                terms = plus(terms, 1)
+                continue
+            raise Untranslatable('from_parts: statement %r' % st[:60])
+        L += ['/-- `Event::output_size_needed` -/']
+        _, sz = fn_text(src, 'output_size_needed')
+        szn = norm(sz)
+        if not re.fullmatch(r'\d+\+tagslen\+\d+\+contentlen', szn):
+            raise Untranslatable('output_size_needed: %r' % sz.strip())
+        a, b = re.findall(r'\d+', szn)
+        L += ['def eventSize (tagsLen contentLen : Nat) : Nat := %s + tagsLen + %s + contentLen' % (a, b), '']
+        if text(terms) != '%s+taglen+%s+contentlen' % (a, b):
+            raise Untranslatable('from_parts: the writes end at %s, output_size_needed says %s+taglen+%s+contentlen' % (text(terms), a, b))
+        L += ['/-- `Event::from_parts`: the contiguous writes `output[a..b].copy_from_slice(x)`, in order -/',
+              'def encodeEventWith (id pk sig : Bytes) (kind t : Nat) (tagBytes content : Bytes) : Bytes :=',
+              '  ' + ' ++ '.join(pieces), '']
+        rep['translated'].append('event.rs:from_parts (%d writes)' % len(pieces))
+    except (Untranslatable, ValueError) as ex:
+        L += ['/-- `Event::from_parts` could not be translated: %s -/' % str(ex).replace('-/', '- /'),
+              'def encodeEventWith : Bytes := untranslatable_source "from_parts"', '']
+        rep['untranslatable'].append('from_parts: %s' % ex)
+    # ---- the readers: where each accessor looks
+    try:
+        def acc(name):
+            return re.sub(r'\s+', ' ', fn_text(src, name)[1]).strip()
+        m = re.fullmatch(r'parse_u16!\(self\.0, (\d+)\)\.into\(\)', acc('kind'))
+        k = int(m.group(1))
+        m = re.fullmatch(r'parse_u64!\(self\.0, (\d+)\)\.into\(\)', acc('created_at'))
+        t = int(m.group(1))
+        offs = []
+        for name, ty in (('id', 32), ('pubkey', 32), ('sig', 64)):
+            m = re.fullmatch(r'let inner: \[u8; (\d+)\] = self\.0\[(\d+)\.\.(\d+) \+ (\d+)\]\.try_into\(\)\.unwrap\(\); inner\.into\(\)', acc(name))
+            if not m or m.group(2) != m.group(3) or m.group(1) != m.group(4):
+                raise Untranslatable('accessor %s' % name)
+            offs += [int(m.group(2)), int(m.group(1))]
+        m = re.fullmatch(r'unsafe \{ Tags::delineate\(&self\.0\[(\d+)\.\.\]\) \}', acc('tags'))
+        g = int(m.group(1))
+        m = re.fullmatch(r'let t = parse_u16!\(self\.0, (\d+)\) as usize; let c = parse_u32!\(self\.0, (\d+) \+ t\) as usize; '
+                         r'&self\.0\[(\d+) \+ t \+ (\d+)\.\.(\d+) \+ t \+ (\d+) \+ c\]', acc('content'))
+        if not m or len({m.group(1), m.group(2), m.group(3), m.group(5)}) != 1 or m.group(4) != m.group(6):
+            raise Untranslatable('accessor content')
+        L += ['/-- where the accessors of `Event` read: kind, created_at, (id offset, length), (pubkey …), (sig …), tags, the tag-section length read',
+              'by `content`, and the width of the content length -/',
+              'def evReads : List Nat := %s' % ([k, t] + offs + [g, int(m.group(1)), int(m.group(4))]), '']
+        rep['translated'].append('event.rs:accessors')
+    except (Untranslatable, AttributeError, ValueError) as ex:
+        L += ['def evReads : List Nat := untranslatable_source "Event accessors"', '']
+        rep['untranslatable'].append('Event accessors: %s' % ex)
+    L += ['end Pocket.Src', '']
+    return '\n'.join(L)
+
+
 HEAD = ['/- GENERATED by lib/srcfacts.py from the current working tree of /repo on every check run.  Do not edit: edit the translator.',
         '   What the source says now; the `…_from_source` theorems (Pocket/Lemmas/FromSource*.lean, Pocket/Thm) prove that the model agrees. -/',
         'namespace Pocket.Src', '']
@@ -557,6 +661,7 @@ def generate():
     L += ['', 'end Pocket.Src', '']
     files = {'Kind.lean': '\n'.join(K), 'Hex.lean': '\n'.join(H), 'Consts.lean': '\n'.join(L), 'Preds.lean': '\n'.join(E)}
     files['Keys.lean'] = keys_file(rep)
+    files['Layout.lean'] = event_layout(rep)
     return files, rep
 
 
